@@ -115,14 +115,44 @@ macro_rules! cover {
 }
 
 /// Declares proof harnesses and the table the native replayer dispatches on.
+///
+///     proofs! {
+///         [] fn plain() { .. }
+///         [push, sortv, boxed] fn with_std_models() { .. }
+///     }
+///
+/// The bracketed tags select the std models of `stubs.rs` (DESIGN 2.3) for that harness.
 #[macro_export]
 macro_rules! proofs {
-    ($( $(#[$m:meta])* fn $name:ident() $body:block )*) => {
-        $(
-            #[cfg_attr(kani, kani::proof)]
-            $(#[$m])*
-            pub fn $name() $body
-        )*
+    ($( [$($tag:ident),*] fn $name:ident() $body:block )*) => {
+        $( $crate::harness_item!{ @acc [] [$($tag,)*] fn $name() $body } )*
         pub const LIST: &[(&str, fn())] = &[ $( (stringify!($name), $name as fn()) ),* ];
+    };
+}
+
+#[macro_export]
+macro_rules! harness_item {
+    (@acc [$($a:tt)*] [] fn $name:ident() $body:block) => {
+        #[cfg_attr(kani, kani::proof)]
+        $($a)*
+        pub fn $name() $body
+    };
+    (@acc [$($a:tt)*] [push, $($r:ident,)*] fn $name:ident() $body:block) => {
+        $crate::harness_item!{ @acc [$($a)* #[cfg_attr(kani, kani::stub(std::vec::Vec::push, crate::stubs::push))]] [$($r,)*] fn $name() $body }
+    };
+    (@acc [$($a:tt)*] [sortv, $($r:ident,)*] fn $name:ident() $body:block) => {
+        $crate::harness_item!{ @acc [$($a)* #[cfg_attr(kani, kani::stub(<[unic_langid_impl::subtags::Variant]>::sort_unstable, crate::stubs::sort_unstable))]] [$($r,)*] fn $name() $body }
+    };
+    (@acc [$($a:tt)*] [sortt, $($r:ident,)*] fn $name:ident() $body:block) => {
+        $crate::harness_item!{ @acc [$($a)* #[cfg_attr(kani, kani::stub(<[tinystr::TinyAsciiStr<8>]>::sort_unstable, crate::stubs::sort_unstable))]] [$($r,)*] fn $name() $body }
+    };
+    (@acc [$($a:tt)*] [boxed, $($r:ident,)*] fn $name:ident() $body:block) => {
+        $crate::harness_item!{ @acc [$($a)* #[cfg_attr(kani, kani::stub(std::vec::Vec::into_boxed_slice, crate::stubs::into_boxed_slice))]] [$($r,)*] fn $name() $body }
+    };
+    (@acc [$($a:tt)*] [tovec, $($r:ident,)*] fn $name:ident() $body:block) => {
+        $crate::harness_item!{ @acc [$($a)* #[cfg_attr(kani, kani::stub(<[unic_langid_impl::subtags::Variant]>::to_vec, crate::stubs::to_vec))]] [$($r,)*] fn $name() $body }
+    };
+    (@acc [$($a:tt)*] [nofmt, $($r:ident,)*] fn $name:ident() $body:block) => {
+        $crate::harness_item!{ @acc [$($a)* #[cfg_attr(kani, kani::stub(alloc::fmt::format, crate::stubs::format))]] [$($r,)*] fn $name() $body }
     };
 }
